@@ -12,9 +12,11 @@ class PathDumper(FileDumper):
         PathDumper.__makedirs(self.out_path)
 
     def write_file_to_output(self, filename, path):
+        is_descriptor = path == 'datapackage.json'
         path = os.path.join(self.out_path, path)
-        # Avoid rewriting existing files
-        if self.add_filehash_to_path and os.path.exists(path):
+        # Avoid rewriting existing data files (their path holds the hash of their content);
+        # the descriptor is not content-addressed: it describes this dump and is always written
+        if self.add_filehash_to_path and not is_descriptor and os.path.exists(path):
             return
         path_part = os.path.dirname(path)
         PathDumper.__makedirs(path_part)
